@@ -54,9 +54,136 @@ def first_positional_use(fn_node: ast.FunctionDef, name: str) -> Optional[int]:
     return None
 
 
+def _positional_use_in(node: ast.AST, name: str) -> Optional[ast.AST]:
+    for n in ast.walk(node):
+        if isinstance(n, ast.Subscript) and isinstance(n.value, ast.Name) and n.value.id == name:
+            return n
+        if isinstance(n, ast.comprehension) and isinstance(n.iter, ast.Name) and n.iter.id == name:
+            return n.iter
+    return None
+
+
+def sorted_on_every_path(fn_node: ast.FunctionDef, name: str, key_attr: str) -> Tuple[Optional[bool], str]:
+    """must-analysis over the statement structure (if / while / for / try, break / continue / return / raise): at every positional
+    use of ``name`` (subscript, iteration) the last thing that happened to the list on EVERY path reaching it is a sort by
+    ``key_attr`` — `name.sort(key=..)` or `name = sorted(name, key=..)`; a re-binding or a mutating call in between makes it
+    unsorted again.  Returns (True, ..) / (False, reason with the line of the use) / (None, ..) when no sort by that key exists."""
+    MUT = {"append", "extend", "insert", "reverse", "pop", "remove", "clear", "__setitem__"}
+    bad: List[str] = []
+    seen_sort = [False]
+
+    def sort_of(s) -> Optional[bool]:
+        """True: sorts by the key; False: sorts by something else; None: not a sort statement of `name`"""
+        c = None
+        if isinstance(s, ast.Expr) and isinstance(s.value, ast.Call) and call_name(s.value) == "sort" and isinstance(s.value.func, ast.Attribute) and \
+                isinstance(s.value.func.value, ast.Name) and s.value.func.value.id == name:
+            c = s.value
+        if isinstance(s, ast.Assign) and len(s.targets) == 1 and isinstance(s.targets[0], ast.Name) and s.targets[0].id == name and \
+                isinstance(s.value, ast.Call) and call_name(s.value) == "sorted" and s.value.args and isinstance(s.value.args[0], ast.Name) and \
+                s.value.args[0].id == name:
+            c = s.value
+        if c is None:
+            return None
+        return sort_key_attr(c) == key_attr
+
+    def run(stmts, st: bool, brk: List[bool], cont: List[bool]) -> Optional[bool]:
+        """state after the block (None: no path falls out of it)"""
+        cur: Optional[bool] = st
+        for s in stmts:
+            if cur is None:
+                break
+            k = sort_of(s)
+            if k is not None:
+                if k:
+                    seen_sort[0] = True
+                cur = k
+                continue
+            if isinstance(s, (ast.FunctionDef, ast.AsyncFunctionDef, ast.ClassDef, ast.Import, ast.ImportFrom, ast.Pass)):
+                continue
+            if isinstance(s, ast.If):
+                u = _positional_use_in(s.test, name)
+                if u is not None and not cur:
+                    bad.append(f"line {u.lineno}")
+                a = run(s.body, cur, brk, cont)
+                b = run(s.orelse, cur, brk, cont)
+                cur = None if a is None and b is None else (a if b is None else (b if a is None else (a and b)))
+                continue
+            if isinstance(s, (ast.While, ast.For)):
+                head = cur
+                hdr = s.test if isinstance(s, ast.While) else s.iter
+                const_true = isinstance(s, ast.While) and isinstance(s.test, ast.Constant) and bool(s.test.value)
+                out_states: List[bool] = []
+                for _ in range(3):          # two-point lattice: the loop head stabilises after at most two rounds
+                    u = _positional_use_in(hdr, name)
+                    if isinstance(s, ast.For) and isinstance(s.iter, ast.Name) and s.iter.id == name:
+                        u = s.iter
+                    b_, c_ = [], []
+                    n_bad = len(bad)
+                    if u is not None and not head:
+                        bad.append(f"line {u.lineno}")
+                    end = run(s.body, head, b_, c_)
+                    back = [x for x in [end] + c_ if x is not None]
+                    new_head = head and all(back)
+                    out_states = b_
+                    if new_head == head:
+                        break
+                    del bad[n_bad:]
+                    head = new_head
+                exits = list(out_states) + ([] if const_true else [head])
+                if s.orelse and not const_true:
+                    e2 = run(s.orelse, head, brk, cont)
+                    exits = list(out_states) + ([e2] if e2 is not None else [])
+                cur = None if not exits else all(exits)
+                continue
+            if isinstance(s, ast.Try):
+                a = run(s.body, cur, brk, cont)
+                hs = [run(h.body, False if a is None or not a else cur and a, brk, cont) for h in s.handlers]
+                outs = [x for x in [a] + hs if x is not None]
+                cur = None if not outs else all(outs)
+                if s.finalbody:
+                    cur = run(s.finalbody, bool(cur), brk, cont) if cur is not None else None
+                continue
+            if isinstance(s, ast.With):
+                cur = run(s.body, cur, brk, cont)
+                continue
+            if isinstance(s, ast.Break):
+                brk.append(cur)
+                cur = None
+                continue
+            if isinstance(s, ast.Continue):
+                cont.append(cur)
+                cur = None
+                continue
+            u = _positional_use_in(s, name)
+            if u is not None and not cur:
+                bad.append(f"line {u.lineno}")
+            if isinstance(s, (ast.Return, ast.Raise)):
+                cur = None
+                continue
+            # re-binding / mutation
+            for n in ast.walk(s):
+                if isinstance(n, ast.Name) and n.id == name and isinstance(n.ctx, (ast.Store, ast.Del)):
+                    cur = False
+                if isinstance(n, ast.Call) and isinstance(n.func, ast.Attribute) and n.func.attr in MUT and isinstance(n.func.value, ast.Name) and \
+                        n.func.value.id == name:
+                    cur = False
+                if isinstance(n, (ast.Subscript,)) and isinstance(n.ctx, (ast.Store, ast.Del)) and isinstance(n.value, ast.Name) and n.value.id == name:
+                    cur = False
+        return cur
+    run(fn_node.body, False, [], [])
+    if not seen_sort[0]:
+        return None, "no sort"
+    if bad:
+        return False, f"'{name}' is used positionally ({bad[0]}) on a path where it is not sorted by '{key_attr}'"
+    return True, f"'{name}' is sorted by {key_attr} on every path to a positional use"
+
+
 def callee_sorts_param(ctx, qual: str, param: str, key_attr: str) -> Tuple[bool, str]:
     """Does the resolved function sort its parameter by ``key_attr`` before any positional use of it?"""
     fn = ctx.M.fn(qual)
+    ok, why = sorted_on_every_path(fn.node, param, key_attr)
+    if ok is not None:
+        return ok, (f"{fn.name}: {why}" if not ok else f"{fn.name} sorts '{param}' by {key_attr} before use")
     srt = first_sort_of(fn.node, param)
     use = first_positional_use(fn.node, param)
     if srt is None:
